@@ -148,7 +148,12 @@ def main():
     c.oblige("xpartial extractor ran on the cog working tree", ok, detail)
     missing = gen_c04.unreviewed()
     c.oblige("every regenerated partial operation has a reviewed entry (certificate complete)", not missing,
-             [(m["file"], m["func"], m["kind"], m["guard"], m["expr"]) for m in missing[:10]])
+             {"how": "static alarm, no failing input: the rows below are partial operations (file, function, kind, guard, expression text) that the extractor "
+                     "finds in the working tree and that have no entry in lean/Cog/Total/Reviewed.lean, so `partial_ops_accounted` (and with it the C04 Lean build) fails. "
+                     "Either the code gained / lost a guard or a new unchecked operation (review it: add a guard in cog, or an entry saying why it is harmless / which finding it is), "
+                     "or a behaviour-preserving edit moved the operation into another function or changed the membership of a recursion group that the extractor could not "
+                     "prove structurally descending (the row key is file+function+expression, not the line): then the entry only has to be re-keyed.",
+              "rows": [(m["file"], m["func"], m["kind"], m["guard"], m["expr"]) for m in missing[:10]]})
     c.cov["partial_ops"] = detail
     c.lean_obligations(THEOREMS)
     if hb is None:
